@@ -104,6 +104,22 @@ func (e *Env) term(x *Sx) string {
 		return fmt.Sprintf("(select %s %s)", arr, mkKey(ks))
 	}
 	switch h {
+	case "!":
+		// (! body :pattern (t1 t2 ...) ...): evaluate the body and every pattern term
+		parts := []string{"!", e.term(x.List[1])}
+		for i := 2; i < len(x.List); i++ {
+			a := x.List[i]
+			if a.IsAtom() {
+				parts = append(parts, a.Atom)
+				continue
+			}
+			var ts []string
+			for _, t := range a.List {
+				ts = append(ts, e.term(t))
+			}
+			parts = append(parts, "("+strings.Join(ts, " ")+")")
+		}
+		return "(" + strings.Join(parts, " ") + ")"
 	case "comp":
 		c := e.s.Spec.Comps[x.List[1].Atom]
 		if c == nil {
@@ -123,6 +139,21 @@ func (e *Env) term(x *Sx) string {
 			return "(strlen " + s.T + ")"
 		}
 		e.errf("len of %T", v)
+	case "byteat":
+		// (byteat slice i): the i-th element of a byte slice (ground: a select on its content array)
+		v := e.val(x.List[1])
+		sl, ok := v.(Slice)
+		if !ok {
+			e.errf("byteat of %T", v)
+		}
+		if sl.Arr == nil {
+			return "0"
+		}
+		c := e.s.arrContent(e.cur, sl.Arr)
+		if len(c.Leaves) != 1 {
+			e.errf("byteat of a non-scalar slice")
+		}
+		return fmt.Sprintf("(select %s %s)", c.Leaves[0], addTerm(sl.Off, e.term(x.List[2])))
 	case "bcode":
 		v := e.val(x.List[1])
 		if s, ok := v.(Slice); ok {
@@ -377,6 +408,11 @@ func (e *Env) atom(a string) string {
 		e.errf("path %s does not denote a scalar (%T)", a, v)
 	}
 	// SMT symbol from the prelude or built-in
+	if strings.ContainsAny(a, ".[") && !e.s.Spec.Symbols[a] && !baseSymbols[a] && !isNumeral(a) {
+		if _, isComp := e.s.Spec.Comps[a]; !isComp {
+			e.errf("unknown variable or symbol %s", a)
+		}
+	}
 	return a
 }
 
